@@ -1,5 +1,6 @@
 import HexProofs.Framework.Gen.BBands
 import HexProofs.Numeric.SeriesRSI
+import HexProofs.Numeric.SeriesATR
 import HexProofs.Numeric.Stdev
 import HexProofs.Numeric.Channel
 set_option linter.unusedSectionVars false
@@ -174,7 +175,7 @@ theorem stdev_core (p : Nat) (hp : 1 ≤ p) (nm input D : String) (xs : Nat → 
   rw [hvar] at hprevV
   by_cases h0 : H.length = 0
   · -- the first candle
-    simp only [h0, if_true] at hprevM hprevV
+    rw [if_pos h0] at hprevM hprevV
     have hrp : ({ cs := H ++ [c], i := H.length, name := nm } : Ctx K).readingPeriod ((p : Int) + 1) input
         (some ({ cs := H ++ [c], i := H.length, name := nm } : Ctx K).i) = false := by
       rw [Ctx.readingPeriod_some_i, hper]; simp; omega
@@ -185,7 +186,7 @@ theorem stdev_core (p : Nat) (hp : 1 ≤ p) (nm input D : String) (xs : Nat → 
     rw [hs, h0, e1, e2]
     unfold stdOwn stdData
     rw [if_pos (by omega)]
-  · simp only [h0, if_false] at hprevM hprevV
+  · rw [if_neg h0] at hprevM hprevV
     obtain ⟨e1, e2⟩ := runStats_step p hp (fun j => (xs j).toF) H.length (by omega)
     by_cases h1 : H.length < p
     · -- warm-up
@@ -220,7 +221,212 @@ theorem stdev_core (p : Nat) (hp : 1 ≤ p) (nm input D : String) (xs : Nat → 
       rw [hs, e1, e2]
       unfold stdOwn stdData
       rw [if_neg h1]
-      rfl
+
+/-! ### generic access to a decorated history -/
+
+section access
+variable {R : Type}
+
+/-- the input column of a decorated history is the raw one: readings of a candle field at every
+index up to the active one, and `reading_period` -/
+theorem input_facts (out : Candle K → R → Candle K) (input : String)
+    (hin : NoDot input ∧ input ∈ Candle.attrNames) (fld : Candle K → Num K)
+    (hattr : ∀ c : Candle K, c.attr input = some (.num (fld c)))
+    (hout : ∀ c r, readingByCandle (out c r) input = readingByCandle c input)
+    (raw : List (Candle K)) (m : Nat) (hm : m < raw.length) (rows : List R) (hrows : rows.length = m)
+    (done : List (Candle K)) (hdone : decoWith out (raw.take m) rows = done)
+    (c' : Candle K) (hc' : readingByCandle c' input = readingByCandle (raw.getD m default) input)
+    (name : String) :
+    (∀ j : Nat, j ≤ m → ({ cs := done ++ [c'], i := done.length, name := name } : Ctx K).reading input (some (j : Int))
+      = .ok (.num (fld (raw.getD j default)))) ∧
+    (∀ q : Nat, 1 ≤ q → ({ cs := done ++ [c'], i := done.length, name := name } : Ctx K).readingPeriod (q : Int) input
+      = decide (q ≤ m + 1)) := by
+  have htl : (raw.take m).length = m := by simp; omega
+  have hdl : done.length = m := by
+    rw [← hdone, decoWith_length _ _ _ (by rw [htl, hrows]), htl]
+  have hcol : Ctx.SameCol input ({ cs := done ++ [c'], i := done.length, name := name } : Ctx K)
+      (stepCtx name raw (List.replicate m .none) m) := by
+    refine ⟨by simp [stepCtx, hdl], ?_⟩
+    show col input (done ++ [c']) = col input (decoWith (fun c v => setKey false name v c) (raw.take m) _ ++ [raw.getD m default])
+    rw [col_append, col_append, ← hdone,
+      col_decoWith input _ hout _ _ (by rw [htl, hrows]),
+      col_decoWith input _ (fun c v => indep_attr (F := K) name input hin.1 hin.2 false v c) _ _ (by simp [htl])]
+    simp [col, hc']
+  constructor
+  · intro j hj
+    rw [Ctx.reading_congr hcol]
+    exact stepCtx_field name input fld raw _ m hm (by simp) hin.1 hattr j hj
+  · intro q hq
+    rw [Ctx.readingPeriod_congr hcol]
+    exact stepCtx_period name input fld raw _ m hm (by simp) hin.1 hattr q hq
+
+/-- the last candle of a decorated history -/
+theorem lastReading_decoWith (out : Candle K → R → Candle K) (dflt : R) (raw : List (Candle K)) (m : Nat)
+    (hm : m ≤ raw.length) (rows : List R) (hrows : rows.length = m) (h1 : 1 ≤ m) (key : String) :
+    Ctx.lastReading key (decoWith out (raw.take m) rows)
+      = readingByCandle (out (raw.getD (m - 1) default) (rows.getD (m - 1) dflt)) key := by
+  have htl : (raw.take m).length = m := by simp; omega
+  unfold Ctx.lastReading
+  rw [List.getLast?_eq_getElem?, decoWith_length _ _ _ (by rw [htl, hrows]), htl,
+    decoWith_getElem? _ _ _ dflt (m - 1) (by rw [htl, hrows]) (by rw [htl]; omega)]
+  have : (raw.take m).getD (m - 1) default = raw.getD (m - 1) default := by
+    rw [List.getD_eq_getElem?_getD, List.getD_eq_getElem?_getD, List.getElem?_take_of_lt (by omega)]
+  rw [this]
+
+theorem lastReading_nil (key : String) : Ctx.lastReading key ([] : List (Candle K)) = .none := rfl
+
+end access
+
+/-! ### the finished STDEV candles -/
+
+/-- name conditions of a top-level STDEV node -/
+structure SdNames (nm : String) : Prop where
+  key : IsKey nm
+  dkey : IsKey (nm ++ "_data")
+  sn : StdevNames nm
+
+/-- a finished STDEV candle: data entry `r.2` in `.sub_indicators`, own reading `r.1` in `.indicators` -/
+def sdOut (nm : String) (c : Candle K) (r : Val K × Val K) : Candle K :=
+  outD nm (nm ++ "_data") r.1 (some r.2) c
+
+/-- the candles of a STDEV run: raw candle `j` with the pair `rows[j]` = (own reading, data entry) -/
+def decoSd (nm : String) (raw : List (Candle K)) (rows : List (Val K × Val K)) : List (Candle K) :=
+  decoWith (sdOut nm) raw rows
+
+section cand
+variable (nm : String)
+
+theorem sdOut_own (hn : SdNames nm) (c : Candle K) (hc : Plain c) (r : Val K × Val K) :
+    readingByCandle (sdOut nm c r) nm = r.1 := by
+  rw [readingByCandle_key nm hn.key]
+  obtain ⟨hi, hs⟩ := hc
+  simp [sdOut, lookupKey, outD, setD, setKey, hi, hs, dset, dlookup]
+
+theorem sdOut_data (hn : SdNames nm) (c : Candle K) (hc : Plain c) (r : Val K × Val K) :
+    readingByCandle (sdOut nm c r) (nm ++ "_data") = r.2 := by
+  rw [readingByCandle_key _ hn.dkey]
+  obtain ⟨hi, hs⟩ := hc
+  simp [sdOut, lookupKey, outD, setD, setKey, hi, hs, dset, dlookup, hn.sn.ne]
+
+theorem sdOut_mean (hn : SdNames nm) (c : Candle K) (hc : Plain c) (r : Val K × Val K) :
+    readingByCandle (sdOut nm c r) (nm ++ "_data.mean") = r.2.nested "mean" := by
+  unfold readingByCandle
+  rw [hn.sn.mean]
+  obtain ⟨hi, hs⟩ := hc
+  simp [sdOut, outD, setD, setKey, hi, hs, dset, dlookup, hn.sn.ne]
+
+theorem sdOut_var (hn : SdNames nm) (c : Candle K) (hc : Plain c) (r : Val K × Val K) :
+    readingByCandle (sdOut nm c r) (nm ++ "_data.variance") = r.2.nested "variance" := by
+  unfold readingByCandle
+  rw [hn.sn.var]
+  obtain ⟨hi, hs⟩ := hc
+  simp [sdOut, outD, setD, setKey, hi, hs, dset, dlookup, hn.sn.ne]
+
+theorem sdOut_input (input : String) (hin : NoDot input ∧ input ∈ Candle.attrNames) (c : Candle K)
+    (r : Val K × Val K) : readingByCandle (sdOut nm c r) input = readingByCandle c input := by
+  unfold sdOut outD setD
+  rw [indep_attr (F := K) nm input hin.1 hin.2, indep_attr (F := K) (nm ++ "_data") input hin.1 hin.2]
+
+end cand
+
+/-- what the whole-series theorem says of candle `j` (`r` = own reading, data entry).
+* The data entry holds EXACTLY (`Managed.set_reading` does not round) the running mean and running
+  population variance of the zero-padded window; from index `p − 1` on these are the mean and the
+  mean squared deviation of the last `p` inputs (`runMean_eq_winMean`, `runVar_eq_popVar`).
+* The own reading is `None` up to index `p − 1` and from index `p` on the rounding of
+  `sqrt(popVar)`, hence within `ε_n` of the exact standard deviation (no growth: nothing rounded is
+  fed back). -/
+def StdevOK (p n : Nat) (x : Nat → K) (j : Nat) (r : Val K × Val K) : Prop :=
+  r.2 = stdData (runMean p x j) (runVar p x j) ∧
+  (j < p → r.1 = .none) ∧
+  (p ≤ j → ∃ y, r.1 = .flt y ∧ y = PyF.round n (sigmaExact x p j) ∧ |y - sigmaExact x p j| ≤ eps K n)
+
+/-- σ ≥ 0 for the stored reading -/
+theorem StdevOK.nonneg [NonnegSqrt K] {p n : Nat} {x : Nat → K} {j : Nat} {r : Val K × Val K}
+    (h : StdevOK p n x j r) (y : K) (hy : r.1 = .flt y) : 0 ≤ y := by
+  by_cases hj : j < p
+  · rw [h.2.1 hj] at hy; cases hy
+  · obtain ⟨y', hy', he, _⟩ := h.2.2 (by omega)
+    rw [hy'] at hy
+    cases hy
+    rw [he]
+    exact round_nonneg n _ (sigmaExact_nonneg x p j)
+
+theorem stdevOK_mk (p n : Nat) (hp : 1 ≤ p) (x : Nat → K) (j : Nat) :
+    StdevOK p n x j ((stdOwn p x j).roundBy n, stdData (runMean p x j) (runVar p x j)) := by
+  refine ⟨rfl, ?_, ?_⟩
+  · intro h
+    simp only [stdOwn, if_pos h]
+    rfl
+  · intro h
+    have hv : max (runVar p x j) 0 = popVar x p j := by
+      rw [runVar_eq_popVar p hp x j (by omega)]
+      exact max_eq_left (popVar_nonneg x p j)
+    simp only [stdOwn, if_neg (by omega : ¬ j < p), hv]
+    exact ⟨_, rfl, rfl, LawfulPyF.round_err n _⟩
+
+theorem stdev_finish (nm : String) (n : Nat) (p : Int) (input : String) (done : List (Candle K)) (c : Candle K)
+    (v dv : Val K)
+    (h : Calc.stdev (dOps (nm ++ "_data") done.length) { cs := done ++ [c], i := done.length, name := nm } p input
+      = .ok (v, done ++ [setKey true (nm ++ "_data") dv c])) :
+    (do let r ← Calc.stdev (dOps (nm ++ "_data") done.length) { cs := done ++ [c], i := done.length, name := nm } p input
+        setReading false nm r.2 done.length (r.1.roundBy n))
+      = .ok (done ++ [sdOut nm c (v.roundBy n, dv)]) := by
+  rw [h]
+  simp only [pym_bind_ok]
+  rw [setReading_eq, updateAt_append_cons]
+  rfl
+
+/-- the row step of `stdevTree` is the model's `_calculate_reading` followed by the store of the
+rounded own reading -/
+theorem stdev_rowStep (nm : String) (n : Nat) (p : Int) (input : String) (hp : 0 ≤ p)
+    (hin : NoDot input ∧ input ∈ Candle.attrNames) (done : List (Candle K)) (c : Candle K) :
+    Gen.rowStep (stdevTree (F := K) nm n p input hp hin).S done c = (do
+      let r ← Calc.stdev (dOps (nm ++ "_data") done.length) { cs := done ++ [c], i := done.length, name := nm } p input
+      setReading false nm r.2 done.length (r.1.roundBy n)) := rfl
+
+/-- **STDEV, whole series** (row-major run of `stdevTree`), period `p ≥ 1`, input a candle field.
+For EVERY raw list the run returns; the result is the raw candles with, on candle `j`, the pair
+`rows[j]` = (own reading in `.indicators`, `<name>_data` entry in `.sub_indicators`), and every pair
+satisfies `StdevOK`. -/
+theorem stdev_series (p : Nat) (hp : 1 ≤ p) (nm input : String) (fld : Candle K → Num K) (n : Nat)
+    (hn : SdNames nm) (hin : NoDot input ∧ input ∈ Candle.attrNames)
+    (hattr : ∀ c : Candle K, c.attr input = some (.num (fld c)))
+    (raw : List (Candle K)) (hraw : ∀ c ∈ raw, Plain c) :
+    ∃ rows : List (Val K × Val K), rows.length = raw.length ∧
+      Gen.rowMajor (stdevTree (F := K) nm n (p : Int) input (by omega) hin).S raw = .ok (decoSd nm raw rows) ∧
+      ∀ j, j < raw.length → StdevOK p n (fieldAt fld raw) j (rows.getD j (.none, .none)) := by
+  refine gen_series_induct _ (sdOut nm) (.none, .none) raw _ ?_
+  intro m hm rows hrows hQ
+  have htl : (raw.take m).length = m := by simp; omega
+  have hdl : (decoWith (sdOut nm) (raw.take m) rows).length = m := by
+    rw [decoWith_length _ _ _ (by rw [htl, hrows]), htl]
+  rw [stdev_rowStep]
+  obtain ⟨hfield, hper⟩ := input_facts (sdOut nm) input hin fld hattr (fun c r => sdOut_input nm input hin c r)
+    raw m hm rows hrows _ rfl (raw.getD m default) rfl nm
+  have hlast := lastReading_decoWith (sdOut nm) (.none, .none) raw m (by omega) rows hrows
+  generalize hdone : decoWith (sdOut nm) (raw.take m) rows = done at hdl hfield hper hlast ⊢
+  subst hdl
+  refine ⟨((stdOwn p (fieldAt fld raw) done.length).roundBy n,
+      stdData (runMean p (fieldAt fld raw) done.length) (runVar p (fieldAt fld raw) done.length)),
+    stdev_finish nm n p input done _ (stdOwn p (fieldAt fld raw) done.length)
+      (stdData (runMean p (fieldAt fld raw) done.length) (runVar p (fieldAt fld raw) done.length)) ?_, ?_⟩
+  · refine stdev_core p hp nm input (nm ++ "_data") (fun j => fld (raw.getD j default)) done (raw.getD done.length default)
+      hfield ?_ ?_ ?_
+    · have := hper (p + 1) (by omega)
+      rw [show ((p + 1 : Nat) : Int) = (p : Int) + 1 by push_cast; rfl] at this
+      exact this
+    · by_cases h0 : done.length = 0
+      · rw [if_pos h0, List.eq_nil_of_length_eq_zero h0]; rfl
+      · rw [if_neg h0, hlast (by omega), sdOut_mean nm hn _ (getD_plain raw hraw _ (by omega)),
+          (hQ (done.length - 1) (by omega)).1, stdData_mean]
+        rfl
+    · by_cases h0 : done.length = 0
+      · rw [if_pos h0, List.eq_nil_of_length_eq_zero h0]; rfl
+      · rw [if_neg h0, hlast (by omega), sdOut_var nm hn _ (getD_plain raw hraw _ (by omega)),
+          (hQ (done.length - 1) (by omega)).1, stdData_var]
+        rfl
+  · exact stdevOK_mk p n hp (fieldAt fld raw) done.length
 
 end Numeric
 end Hex
